@@ -24,9 +24,10 @@ type ndEvent struct {
 }
 
 type replayFile struct {
-	Harness string         `json:"harness"`
-	Nondet  []ndEvent      `json:"nondet"`
-	Params  map[string]int `json:"params"`
+	Harness  string         `json:"harness"`
+	Nondet   []ndEvent      `json:"nondet"`
+	Params   map[string]int `json:"params"`
+	Schedule []string       `json:"schedule"`
 }
 
 // Param returns a bound chosen by the check's tier (gosym -params); natively the value recorded
@@ -155,10 +156,10 @@ func AllocEnd() {
 // PoolPuts / PoolGets / LocksHeld / TrackRelease: engine-side observers of sync.Pool and
 // sync.Mutex use (gosym only; natively they return 0 / do nothing, so assertions built on them
 // are written as `!Symbolic() || ...`).
-func PoolPuts() int          { return 0 }
-func PoolGets() int          { return 0 }
-func LocksHeld() int         { return 0 }
-func TrackRelease(on bool)   {}
+func PoolPuts() int        { return 0 }
+func PoolGets() int        { return 0 }
+func LocksHeld() int       { return 0 }
+func TrackRelease(on bool) {}
 
 // Quiesce blocks until no other goroutine of the harness can make progress (gosym: exact, the
 // scheduler knows; natively: a generous sleep).
@@ -246,6 +247,7 @@ func RunReplay(t *testing.T, reg map[string]func()) {
 			Sched = append(Sched, e.Value)
 		}
 	}
+	loadSchedule(replay.Schedule)
 	func() {
 		defer func() {
 			r := recover()
@@ -271,5 +273,8 @@ func RunReplay(t *testing.T, reg map[string]func()) {
 	}()
 	if diverged {
 		fmt.Println("VREPLAY NOTE: input kinds diverged from the recorded run")
+	}
+	if s := scheduleSummary(); s != "" {
+		fmt.Println("VREPLAY SCHEDULE: " + s)
 	}
 }
